@@ -41,6 +41,14 @@ SKIP = object()     # the statement does not fix the outcome (e.g. a one-of whos
 # ----------------------------------------------------------------------------- generation
 
 def generate(rng, tier):
+    tdsl.UNHASHABLE_ITEMS = True
+    try:
+        return _generate(rng, tier)
+    finally:
+        tdsl.UNHASHABLE_ITEMS = False
+
+
+def _generate(rng, tier):
     kind = rng.choice(["rule", "rule", "schema", "schema", "dataclass", "func"])
     pool = tdsl.PidPool()
     positions = []
@@ -412,7 +420,10 @@ def ref(t, v, pol):
                     continue
                 return FAIL
             out.append(r)
-        return {"list": list, "set": set, "fset": frozenset, "tup": tuple}[k](out)
+        try:
+            return {"list": list, "set": set, "fset": frozenset, "tup": tuple}[k](out)
+        except TypeError:
+            return FAIL     # an element that is not hashable was put back into a set
     if k == "dict":
         if not isinstance(v, dict):
             return FAIL     # (a sequence of payloads is no mapping)
